@@ -8,9 +8,9 @@ Import ListNotations RecordSetNotations.
 
 Definition pend_just (o : obs) (p : option release) : Prop :=
   match p with
-  | Some (RStarted i) => forall xo, get i (oi o) = Some xo -> o_started xo = true
-  | Some (RRunCtx i) => forall xo, get i (oi o) = Some xo -> o_stopreq xo = true
-  | Some (REndEarly i) => forall xo, get i (oi o) = Some xo -> o_endst xo <> None
+  | Some (RStarted i) => exists xo, get i (oi o) = Some xo /\ o_started xo = true
+  | Some (RRunCtx i) => exists xo, get i (oi o) = Some xo /\ o_stopreq xo = true
+  | Some (REndEarly i) => exists xo, get i (oi o) = Some xo /\ o_endst xo <> None
   | _ => True
   end.
 
@@ -32,7 +32,7 @@ Record frL (o' : obs) (s s' : sys) : Prop := mkFrL {
             | None => get n (viss s') = None end;
   fl_pend : forall th, pend (get_thread s' th) = pend (get_thread s th) \/ pend_just o' (pend (get_thread s' th));
   fl_spc : forall th i, spc (get_thread s' th) = SPendE i ->
-           spc (get_thread s th) = SPendE i \/ forall xo', get i (oi o') = Some xo' -> o_endst xo' <> None }.
+           spc (get_thread s th) = SPendE i \/ exists xo', get i (oi o') = Some xo' /\ o_endst xo' <> None }.
 
 Lemma inst_le_refl o' j x : inst_le o' j x x.
 Proof. intros xo' _. split; [|split; [|split; [|split]]]; eauto. Qed.
@@ -114,7 +114,7 @@ Qed.
 
 Lemma frL_set_thread_tr o' s X th t : frL o' s X ->
   (pend t = pend (get_thread s th) \/ pend_just o' (pend t)) ->
-  (forall i, spc t = SPendE i -> spc (get_thread s th) = SPendE i \/ forall xo', get i (oi o') = Some xo' -> o_endst xo' <> None) ->
+  (forall i, spc t = SPendE i -> spc (get_thread s th) = SPendE i \/ exists xo', get i (oi o') = Some xo' /\ o_endst xo' <> None) ->
   frL o' s (set_thread th t X).
 Proof.
   intros [A1 A2 A3 A4] P Q. constructor; auto.
@@ -186,8 +186,11 @@ Ltac prep H :=
   repeat match goal with E : status_eqb _ _ = true |- _ => apply status_eqb_eq in E end;
   subst; repeat match goal with b : bool |- _ => destruct b end.
 
+Lemma ex_all {A} (m : amap A) i (P : A -> Prop) : (exists x, get i m = Some x /\ P x) -> forall x, get i m = Some x -> P x.
+Proof. intros (x & E & H) y Hy. congruence. Qed.
+
 Lemma step_stop_frL o' s th e s' : step_stop s th e = Some s' ->
-  (forall i xo', e = EStopEnter i true -> get i (oi o') = Some xo' -> o_stopreq xo' = true) -> frL o' s s'.
+  (forall i, e = EStopEnter i true -> exists xo', get i (oi o') = Some xo' /\ o_stopreq xo' = true) -> frL o' s s'.
 Proof. intros H Hg. destruct e; prep H; frL_close. Qed.
 
 Lemma step_env_frL o' s th e s' : step_env s th e = Some s' ->
@@ -204,11 +207,15 @@ Lemma step_state_frL o' s th i s0 s' : step_state s th i s0 = Some s' ->
 Proof. intros H Hg1 Hg2. prep H; frL_close. Qed.
 
 Lemma step_procend_frL o' s th i s0 b s' : step_procend s th i s0 b = Some s' ->
-  (b = true -> forall xo', get i (oi o') = Some xo' -> o_endst xo' <> None) -> frL o' s s'.
-Proof. intros H Hg. prep H; frL_close. Qed.
+  (b = true -> exists xo', get i (oi o') = Some xo' /\ o_endst xo' <> None) -> frL o' s s'.
+Proof.
+  intros H Hg. assert (Hg' : b = true -> forall xo', get i (oi o') = Some xo' -> o_endst xo' <> None).
+  { intros Hb. apply (ex_all _ _ (fun x => o_endst x <> None)). auto. }
+  prep H; frL_close.
+Qed.
 
 Lemma step_own_frL o' s th e s' : step_own s th e = Some s' ->
-  (forall i xo', e = EStarted -> get th (thinst s) = Some i -> get i (oi o') = Some xo' -> o_started xo' = true) -> frL o' s s'.
+  (forall i, e = EStarted -> get th (thinst s) = Some i -> exists xo', get i (oi o') = Some xo' /\ o_started xo' = true) -> frL o' s s'.
 Proof. intros H Hg. destruct e; prep H; try (destruct (start_fail _); cbn [negb]); frL_close. Qed.
 
 Lemma step_reg_frL o' s th e s' : step_reg s th e = Some s' -> (forall i n, e <> ENewInst i n) -> frL o' s s'.
@@ -221,8 +228,9 @@ Proof.
     destruct A as (x' & E & Hn & _ & Hp & _ & Hd & Hs & Hr & Hl). exists x'. split; [exact E|split; [exact Hn|]].
     intros xo' Hxo. split; [|split; [|split; [|split]]].
     + rewrite Hd. auto.
-    + intros Q. destruct (Hs Q) as [|Q2]; [auto|]. rewrite Q2 in P. right. apply (P xo' Hxo).
-    + intros Q. destruct (Hr Q) as [|[Q2|Q2]]; [auto| |]; rewrite Q2 in P; right; [left|right]; apply (P xo' Hxo).
+    + intros Q. destruct (Hs Q) as [|Q2]; [auto|]. rewrite Q2 in P. right. destruct P as (xo & A & B). congruence.
+    + intros Q. destruct (Hr Q) as [|[Q2|Q2]]; [auto| |]; rewrite Q2 in P; right; destruct P as (xo & A & B);
+        assert (xo = xo') by congruence; subst; auto.
     + auto.
     + intros s1 c Q. left. rewrite Hp in Q. eauto.
   - intros n. rewrite flush_viss. destruct (get n (viss s)) as [v|]; eauto.
